@@ -79,7 +79,7 @@ impl Asset {
 //%%sig
     ensures
         /*[C09,C02 sent.token-ok]*/ self.info is Token ==> r is Ok,
-        /*[C09,C02,C05 sent.native-iff]*/ self.info matches AssetInfo::NativeToken { denom } ==> ((r is Ok) <==> (self.amount.0 as nat == attached(message_info.funds@, denom@))),
+        /*[C09,C02,C05,C01,C03 sent.native-iff]*/ self.info matches AssetInfo::NativeToken { denom } ==> ((r is Ok) <==> (self.amount.0 as nat == attached(message_info.funds@, denom@))),
 //%%insert after #1 /Some\(coin\) => \{/
                     proof { let i = choose|i: int| 0 <= i < message_info.funds@.len() && coin == &message_info.funds@[i] && message_info.funds@[i].denom@ == denom@ && (forall|j: int| 0 <= j < i ==> message_info.funds@[j].denom@ != denom@); lemma_attached_first(message_info.funds@, denom@, i); }
 //%%insert after #1 /None => \{/
